@@ -20,6 +20,7 @@ EXPLANATION = (
     "(5) the special trie values are exactly the ones get_recurse dispatches on and the key table is prefix-free."
     " Added after seed round 3: (7) FLAG-FWD - every decoder that takes `more_available` receives its caller's own flag (the nested ESC-prefixed decode included); (8) the byte ranges of within_double_byte as integer intervals (C11.8)."
     ' Round 4: (9) string methods are applied to an event of the nested ESC decode only after an isinstance test excluded every tuple event (mouse 4-tuples and cursor-position 3-tuples).'
+    ' Round-4 triage: (10) a caller of parse_input without an event loop (the synchronous get_input) decodes a held partial sequence itself: every path from its first synchronous parse passes a test of _partial_codes whose true branch parses with wait_for_more=False.'
 )
 NOT_DECIDED = (
     "That event names/coordinates are the documented ones for every sequence; equality of event lists under all cuts for value-dependent recognisers "
@@ -512,6 +513,42 @@ def rule_event_kind(ctx: Ctx) -> RuleResult:
     return rr
 
 
+def rule_sync_timeout(ctx: Ctx) -> RuleResult:
+    """parse_input() keeps an incomplete sequence in _partial_codes and - when it was given an event loop - sets an
+    alarm that decodes the held bytes as they stand after complete_wait.  A caller that passes no event loop (the
+    synchronous get_input) gets no alarm: it has to play that role itself, i.e. every path from its first
+    synchronous parse to its end passes a test of _partial_codes whose true branch parses again with
+    wait_for_more=False; otherwise a lone ESC (or any sequence prefix) is held until another key arrives."""
+    p = ctx.p
+    rr = RuleResult("PASS", "C05.10", "a caller of parse_input without an event loop handles the pending partial sequence itself (test of _partial_codes, then parse with wait_for_more=False)", floor=1)
+    cls = p.cls("urwid.display._raw_display_base.Screen")
+    for fi in p.all_class_functions(cls):
+        calls = [c for c in fi.own_nodes() if isinstance(c, ast.Call) and isinstance(c.func, ast.Attribute) and c.func.attr == "parse_input" and c.args and isinstance(c.args[0], ast.Constant) and c.args[0].value is None]
+        if not calls or fi.name == "parse_input":
+            continue
+        cfg = cfg_of(fi)
+
+        def no_wait(c):
+            return any(k.arg == "wait_for_more" and isinstance(k.value, ast.Constant) and k.value.value is False for k in c.keywords) or (len(c.args) > 3 and isinstance(c.args[3], ast.Constant) and c.args[3].value is False)
+
+        sync = [c for c in calls if not no_wait(c)]
+        final = [c for c in calls if no_wait(c)]
+        tests = [t for t in cfg.nodes if t.kind == "test" and any(isinstance(x, ast.Attribute) and x.attr == "_partial_codes" for x in ast.walk(t.ast))]
+        good = []
+        for t in tests:
+            r = cfg.reachable_from_edges([(t, "T")])
+            if any(n in r for c in final for n in nodes_where(cfg, lambda s, c=c: s is c)):
+                good.append(t)
+        first = min(sync, key=lambda c: c.lineno) if sync else None
+        rr.inst(short(fi), True, {"function": short(fi), "synchronous_parses": len(sync), "timeout_handlers": [norm(t.ast, 50) for t in good]})
+        if first is None:
+            continue
+        fn = nodes_where(cfg, lambda s: s is first)
+        if not good or not all(cfg.must_pass(n, good, ends=[cfg.exit], labels=("T", "F", "n")) for n in fn):
+            rr.add(finding("PASS", fi, first, f"{fi.name}() parses input without an event loop (`{norm(first, 60)}`) and never decodes a held partial sequence: parse_input() can only set its completion alarm on an event loop, so a lone ESC or a sequence prefix stays in _partial_codes until another key arrives - the timeout never 'expires'", construct=f"{fi.name}: no timeout decode of _partial_codes"))
+    return rr
+
+
 def run(ctx: Ctx):
     p = ctx.p
     out = [
@@ -535,6 +572,7 @@ def run(ctx: Ctx):
 
     out.append(c11.rule_dbe_ranges(ctx, "C05.8"))
     out.append(rule_event_kind(ctx))
+    out.append(rule_sync_timeout(ctx))
     return out
 
 
@@ -543,6 +581,8 @@ from ..mutants import Mut  # noqa: E402
 _E = "urwid/display/escape.py"
 _R = "urwid/display/_raw_display_base.py"
 MUTANTS = [
+    Mut("sync-get-input-holds-partial-forever", "urwid/display/_raw_display_base.py", "urwid.display._raw_display_base.Screen.get_input", "        if self._partial_codes:\n            # an incomplete sequence and no event loop to set an alarm on: give the rest complete_wait\n            # to arrive here, then decode what there is as it stands\n            self._wait_for_input_ready(self.complete_wait)\n            new_keys, new_raw = self.parse_input(None, None, self.get_available_raw_input(), wait_for_more=False)\n            keys += new_keys\n            raw += new_raw\n", "", "PASS|display._raw_display_base.Screen.get_input"),
+    Mut("sync-get-input-second-parse-still-waits", "urwid/display/_raw_display_base.py", "urwid.display._raw_display_base.Screen.get_input", "self.parse_input(None, None, self.get_available_raw_input(), wait_for_more=False)", "self.parse_input(None, None, self.get_available_raw_input())", "PASS|display._raw_display_base.Screen.get_input"),
     Mut("meta-branch-only-knows-mouse-tuples", _E, "process_keyqueue", "        if isinstance(run[0], tuple):", "        if urwid.util.is_mouse_event(run[0]):", "KIND|display.escape.process_keyqueue"),
     Mut("meta-decode-never-waits", _E, "process_keyqueue", "run, remaining_codes = process_keyqueue(codes[1:], more_available)", "run, remaining_codes = process_keyqueue(codes[1:], False)", "FLAG-FWD|display.escape.process_keyqueue"),
     Mut("mouse-info-no-more-input", _E, "KeyqueueTrie.read_mouse_info", "        if len(keys) < 3:\n            if more_available:\n                raise MoreInputRequired()\n            return None", "        if len(keys) < 3:\n            return None", "PAIR|display.escape.KeyqueueTrie.read_mouse_info"),
